@@ -518,6 +518,7 @@ pub fn write_replay(
         minimiser_executions: m.executions,
         failing_op_index: m.violation.op_index,
         plan: m.plan.clone(),
+        prefix_plans: Vec::new(),
     };
     let mut v = serde_json::to_value(&rep).map_err(|e| e.to_string())?;
     v["readable_ops"] = json!(describe_plan(env, &m.plan));
